@@ -110,6 +110,9 @@ func setAssemblyIdentity(root *etree.Element, cert *certloader.Certificate) (*et
 	if err != nil {
 		return nil, err
 	}
+	if root == nil {
+		return nil, errors.New("manifest has no root element")
+	}
 	asi := root.SelectElement("assemblyIdentity")
 	if asi == nil {
 		return nil, errors.New("manifest has no top-level assemblyIdentity element")
